@@ -195,11 +195,32 @@ EXTRA3 = {
  "C19": "Byte-class texts (a tag in brackets, cut multi-byte sequences, NUL) in histories and in the equality matrix.",
  "C20": "A list holding the nil against IRI lists of every length; nil in every item field of Endpoints.",
 }
+# families added after the seventh round (DESIGN.md §8.13)
+EXTRA4 = {
+ "C01": "Every Unicode scalar value (1 112 064 code points, 128 per text) in name / content / summary; 21 spellings of string-typed properties (media types with quoted or reordered parameters, letter case, blanks, JSON-looking strings); language lists whose entries share a text.",
+ "C02": "Every Unicode scalar value in text positions; the string-spelling family.",
+ "C03": "Every Unicode scalar value; language lists with an empty text or a zero language after a non-empty entry, or the same text twice.",
+ "C04": "Eleven edge numbers (negative, 2^26, 2^63-1, 2^64-1, 1e19, 1e308, fractions, denormal) as every number property of a saturated document.",
+ "C05": "The C01 families of round 7.",
+ "C06": "Every Unicode scalar value in all five positions, three forms, both codecs; the same text in both entries of a list.",
+ "C08": "After a view is made 16 KiB of stack are zeroed by an unrelated call and the pointer-free part of the view is compared first (a view into a dead frame fails deterministically); static: unsafe.Pointer made from an integer value.",
+ "C09": "Every pair of printable ASCII characters as one byte of the id's path / query value; every sequence of <= 4 tokens over a # :// ? / : % é as an id (reflexive, symmetric, no panic); lists whose members equal each other.",
+ "C10": "Four spellings of a host root next to another addressee; every to / cc list of 5..7 entries over three addressees.",
+ "C11": "All 13 node types at depth 1 and below an Object / Activity in the quick tier.",
+ "C12": "Bare IRIs, IRI lists and item lists (by value and by pointer, with empty and nil members and spare capacity) as arguments of every read-only operation; S10 with a fixed-width counter and one query key.",
+ "C13": "The watchdog times one history, not a sub-tree.",
+ "C14": "The root in five spellings and the bare ? in the main grid; every printable ASCII character as a byte of the path and as a query value; paths that differ in their last byte after multi-byte characters, with a fragment.",
+ "C16": "Every list of 4..7 entries over three addressees in four presentations; ids that differ only before a fragment after multi-byte characters or in a character a bit-trick fold identifies.",
+ "C18": "to-lists with spare capacity (shorter and longer than from's, empty); thirteen pairs of ids that a shortcut takes for equivalent must be refused.",
+ "C19": "Tags that agree in length and in their first eight bytes, histories of depth <= 3.",
+}
 for pid, extra in EXTRA.items():
     checks[pid]["level_claimed"]["text"] += " " + extra
 for pid, extra in EXTRA3.items():
     checks[pid]["level_claimed"]["text"] += " " + extra
 for pid, extra in EXTRA2.items():
+    checks[pid]["level_claimed"]["text"] += " " + extra
+for pid, extra in EXTRA4.items():
     checks[pid]["level_claimed"]["text"] += " " + extra
 
 manifest = {
